@@ -22,6 +22,8 @@ def converged_area(c, r):
     limits = []
     for K in ks:
         rg = geo.ring(c, K, cache=False)
+        if len(rg) != (3 if r == 1 else 5) * K:
+            raise ValueError(f'open ring with {K} segments per edge has {len(rg)} vertices, expected {(3 if r == 1 else 5) * K}')
         areas.append(sp.ring_area(rg))
         if len(areas) >= 2:
             limits.append(areas[-1] + (areas[-1] - areas[-2]) / 15.0)
